@@ -1532,15 +1532,47 @@ where
         };
 
         // For each topic, if a peer has grafted us, then we necessarily must be in their mesh
-        // and they must be subscribed to the topic. Ensure we have recorded the mapping.
-        for topic in &topics {
-            if connected_peer.topics.insert(topic.clone()) {
+        // and they must be subscribed to the topic. Ensure we have recorded the mapping. These
+        // implied subscriptions are subject to the subscription filter like explicit ones.
+        let implied_subscriptions = topics
+            .iter()
+            .filter(|topic| !connected_peer.topics.contains(*topic))
+            .map(|topic| Subscription {
+                action: SubscriptionAction::Subscribe,
+                topic_hash: topic.clone(),
+                options: Default::default(),
+            })
+            .collect::<Vec<_>>();
+        let allowed_subscriptions = match self
+            .subscription_filter
+            .filter_incoming_subscriptions(&implied_subscriptions, &connected_peer.topics)
+        {
+            Ok(subscriptions) => subscriptions,
+            Err(s) => {
+                tracing::error!(
+                    peer=%peer_id,
+                    "Subscription filter error: {}; ignoring GRAFT from peer",
+                    s
+                );
+                return;
+            }
+        };
+        for subscription in allowed_subscriptions {
+            if connected_peer
+                .topics
+                .insert(subscription.topic_hash.clone())
+            {
                 #[cfg(feature = "metrics")]
                 if let Some(m) = self.metrics.as_mut() {
-                    m.inc_topic_peers(topic);
+                    m.inc_topic_peers(&subscription.topic_hash);
                 }
             }
         }
+        // A peer can only be grafted into the mesh of a topic it is known to be subscribed to.
+        let topics = topics
+            .into_iter()
+            .filter(|topic| connected_peer.topics.contains(topic))
+            .collect::<Vec<_>>();
 
         // we don't GRAFT to/from explicit peers; complain loudly if this happens
         if self.explicit_peers.contains(peer_id) {
